@@ -3,7 +3,7 @@ from .. import facts, fdai, scpi_models as M
 from . import dispatch as D
 
 LEVEL = "other"
-TECHNIQUE = "finite-domain abstract interpretation (FDAI) of Node::exec / Node::run_tokens, helpers analysed in place: exec on a branch is interpreted with `sub` bound to every list of up to two abstract children (kind x default flag x 'name matches') and on a leaf over all token classes; run_tokens over header/terminator classes with a common and a plain representative mnemonic (the `*` test is folded); results (handler form, consumed tokens, recursion receiver, path-cell content, error code) compared with the SCPI-99 6.2.4 / IEEE 488.2 7.6 compound-header rules; Token::match_program_header folded on definition/candidate pairs; lexer typestate rows for `;` and `:`; hidden-state census; whole-message tables (sa/rules/msgtable.py): Node::run folded end to end on concrete messages against a concrete tree with the real tokenizer, dispatcher, Parameters, ResponseUnit and formatter impl analysed in place and scripted handlers, compared with a reference execution written from SCPI-99 6.2.4 / IEEE 488.2 7-8 - every spelling of every header alone and in two- / three-unit messages (level left behind, absolute / relative / common headers, white space in front of headers)"
+TECHNIQUE = "finite-domain abstract interpretation (FDAI) of Node::exec / Node::run_tokens, helpers analysed in place: exec on a branch is interpreted with `sub` bound to every list of up to two abstract children (kind x default flag x 'name matches') and on a leaf over all token classes; run_tokens over header/terminator classes with a common and a plain representative mnemonic (the `*` test is folded); results (handler form, consumed tokens, recursion receiver, path-cell content, error code) compared with the SCPI-99 6.2.4 / IEEE 488.2 7.6 compound-header rules; Token::match_program_header folded on definition/candidate pairs; lexer typestate rows for `;` and `:`; hidden-state census; whole-message tables (sa/rules/msgtable.py): Node::run folded end to end on concrete messages against a concrete tree with the real tokenizer, dispatcher, Parameters, ResponseUnit and formatter impl analysed in place and scripted handlers, compared with a reference execution written from SCPI-99 6.2.4 / IEEE 488.2 7-8 - every spelling of every header alone and in two- / three-unit messages (level left behind, absolute / relative / common headers, white space in front of headers); the node values that `Leaf!` / `Branch!` / `Root!` and the `const fn` constructors build, evaluated from a witness crate's constants (R02.11)"
 LEVEL_TEXT = "Decision tables computed from the MIR and compared with the compound-header rules: for a branch, every child list up to length two (73 lists) x six header contexts gives the recursion target, what is consumed and what the path cell holds; for a leaf and for run_tokens every token class (pairs where a second look-ahead matters). This decides 'which level a unit resolves from', 'event vs query', 'common commands do not move the level', 'default nodes may be omitted', 'first matching child wins', '-113 without a handler call', 'no state survives a message'. The tables do not depend on how the search is written (loop, Iterator::find, helper functions)."
 LEVEL_NOTE = "Not decided: trees other than the enumerated one beyond what the per-step tables generalise to; trees violating the documented constraints (two defaults in one branch); mnemonic comparison itself (C03)."
 
